@@ -713,6 +713,17 @@ def cases(tier, seed):
 
 
 # =============================================================================================
+# deductive part (E1-term): the thin wrappers are the stated functions of the SDP value
+# =============================================================================================
+from props.disc_prove import prove_for as _prove_for  # noqa: E402
+
+prove = _prove_for(ID)
+LEVEL_TEXT = LEVEL_TEXT + (" Proved (E1-term, callees by parameter name): is_distinguishable(states, probs) == isclose(dual min-error value for the same states and priors, 1). The SDP values themselves are bounded checks.")
+EXPLANATION = LEVEL_TEXT
+if "E1-pyvc" not in ENGINES:
+    ENGINES = ["E1-pyvc"] + list(ENGINES)
+
+# =============================================================================================
 # frame coverage shared by all properties (E2 obligations for every public function of the anchor files + run-time frame cases)
 # =============================================================================================
 from props import frame_all as _fa  # noqa: E402
